@@ -229,26 +229,49 @@ def _ratf(t):
 # ---- python-number algebra with the same interface (replay-side reference) -----------
 
 class PyAlg:
-    """reference arithmetic on python numbers, per the property: python numeric tower, true division"""
+    """reference arithmetic on python numbers, per the property: python numeric tower, true division.
+    `overflow` is set when an integer result leaves the 64-bit range (outside the properties' domain)."""
+    overflow = False
+
+    @classmethod
+    def _chk(cls, r):
+        if isinstance(r, int) and not isinstance(r, bool) and abs(r) >= 2 ** 63:
+            cls.overflow = True
+        return r
 
     @staticmethod
     def const(x):
         return x
 
-    add = staticmethod(lambda a, b: a + b)
-    sub = staticmethod(lambda a, b: a - b)
-    mul = staticmethod(lambda a, b: a * b)
-    neg = staticmethod(lambda a: -a)
+    @classmethod
+    def add(cls, a, b):
+        return cls._chk(a + b)
+
+    @classmethod
+    def sub(cls, a, b):
+        return cls._chk(a - b)
+
+    @classmethod
+    def mul(cls, a, b):
+        return cls._chk(a * b)
+
+    @classmethod
+    def neg(cls, a):
+        return -a
 
     @staticmethod
     def div(a, b):
         return a / b
 
-    @staticmethod
-    def power(a, b):
-        if isinstance(a, int) and isinstance(b, int) and b < 0:
-            return float(a) ** b
-        return a ** b
+    @classmethod
+    def power(cls, a, b):
+        if isinstance(a, int) and isinstance(b, int):
+            if b < 0:
+                return float(a) ** b
+            if b > 4096 and abs(a) > 1:
+                cls.overflow = True
+                return 0
+        return cls._chk(a ** b)
 
     @staticmethod
     def func(name, a):
